@@ -254,8 +254,8 @@ where
         self.radio_kind.set_packet_params(tx_pkt_params).await?;
         self.radio_kind.set_channel(mdltn_params.frequency_in_hz).await?;
         self.radio_kind.set_payload(buffer).await?;
+        self.radio_kind.set_irq_params(Some(RadioMode::Transmit)).await?;
         self.radio_mode = RadioMode::Transmit;
-        self.radio_kind.set_irq_params(Some(self.radio_mode)).await?;
         Ok(())
     }
 
@@ -301,8 +301,9 @@ where
         self.radio_kind.set_modulation_params(mdltn_params).await?;
         self.radio_kind.set_packet_params(rx_pkt_params).await?;
         self.radio_kind.set_channel(mdltn_params.frequency_in_hz).await?;
-        self.radio_mode = listen_mode.into();
-        self.radio_kind.set_irq_params(Some(self.radio_mode)).await?;
+        let rx_mode: RadioMode = listen_mode.into();
+        self.radio_kind.set_irq_params(Some(rx_mode)).await?;
+        self.radio_mode = rx_mode;
         Ok(())
     }
 
@@ -426,8 +427,8 @@ where
             frequency_in_hz,
         )?;
         self.radio_kind.set_modulation_params(&modulation_params).await?;
-        self.radio_mode = RadioMode::Listen;
         self.radio_kind.do_rx(RxMode::Continuous).await?;
+        self.radio_mode = RadioMode::Listen;
 
         Ok(())
     }
@@ -443,8 +444,10 @@ where
 
         self.radio_kind.set_modulation_params(mdltn_params).await?;
         self.radio_kind.set_channel(mdltn_params.frequency_in_hz).await?;
+        self.radio_kind
+            .set_irq_params(Some(RadioMode::ChannelActivityDetection))
+            .await?;
         self.radio_mode = RadioMode::ChannelActivityDetection;
-        self.radio_kind.set_irq_params(Some(self.radio_mode)).await?;
         Ok(())
     }
 
@@ -510,9 +513,10 @@ where
             self.radio_mode = RadioMode::Standby;
         }
         self.radio_kind.set_channel(mdltn_params.frequency_in_hz).await?;
+        self.radio_kind.set_irq_params(Some(RadioMode::Transmit)).await?;
+        self.radio_kind.set_tx_continuous_wave_mode().await?;
         self.radio_mode = RadioMode::Transmit;
-        self.radio_kind.set_irq_params(Some(self.radio_mode)).await?;
-        self.radio_kind.set_tx_continuous_wave_mode().await
+        Ok(())
     }
 
     async fn prepare_modem(&mut self, frequency_in_hz: u32) -> Result<(), RadioError> {
